@@ -83,7 +83,20 @@ def a3(repo, res):
                 pp_ok = True
             if t == "parent_path is not None" and o in ("self._position", "self.position") and b == "parent_path":
                 pp_ok = True
-        cond = any(isinstance(x, (ast.If, ast.Break, ast.Continue)) for x in ast.walk(lp) if x is not lp)
+        # statement form of the same choice:  if parent_path is None: v = self._position  else: v = parent_path
+        allowed_ifs = set()
+        if not pp_ok and isinstance(args.get("parent_path"), ast.Name):
+            v = args["parent_path"].id
+            for x in ast.walk(lp):
+                if isinstance(x, ast.If) and len(x.body) == 1 and len(x.orelse) == 1 and all(
+                        isinstance(b, ast.Assign) and len(b.targets) == 1 and isinstance(b.targets[0], ast.Name) and b.targets[0].id == v
+                        for b in (x.body[0], x.orelse[0])):
+                    t, b, o = ast.unparse(x.test), ast.unparse(x.body[0].value), ast.unparse(x.orelse[0].value)
+                    if (t == "parent_path is None" and b in ("self._position", "self.position") and o == "parent_path") or \
+                            (t == "parent_path is not None" and o in ("self._position", "self.position") and b == "parent_path"):
+                        pp_ok = True
+                        allowed_ifs.add(id(x))
+        cond = any(isinstance(x, (ast.If, ast.Break, ast.Continue)) and id(x) not in allowed_ifs for x in ast.walk(lp) if x is not lp)
         ok = fw and pp_ok and not cond
         why = "" if ok else ("rotation/anchor/start not forwarded unchanged" if not fw else
                              "parent_path is not `self._position if parent_path is None else parent_path`: descendants of nested collections "
